@@ -66,6 +66,8 @@ TEMPLATES = [
     ("filter-eq", ["--split-by=.a", "--filter=(= . ^.x)"], lambda xs: ("rows", [xs[0]])),
     ("filter-neq", ["--select=(filter .a (!= . ^.x))=v"], lambda xs: {"v": xs[1:]}),
     ("eq-matrix", ["--select=(map .a (= . ^.x))=v"], lambda xs: {"v": [True] + [False] * (len(xs) - 1)}),
+    # integers that enter through the command line (--set / -e) rather than through the input
+    ("preset-var", "PRESET", lambda xs: {"v": xs[0], "w": [xs[1], xs[0]], "same": True}),
 ]
 STYLES = [["--style", "one-line"], ["--style", "consise"], ["--style", "pretty"]]
 
@@ -188,6 +190,8 @@ def run_unit(ctx, unit):
         data = jm.dumps(rec(xs)).encode()
         out_mode = unit["seed"] % 5
         exp = fexp(xs)
+        if targs == "PRESET":
+            targs = ["--set", "pv=%d" % xs[0], "-e", "pw= %d " % xs[1], "--select=:pv=v", "--select=(push [] :pw :pv)=w", "--select=(= .x :pv)=same"]
         args = list(targs)
         if out_mode < 3:
             args += STYLES[unit["style"]]
